@@ -68,6 +68,18 @@ void CanLog::log(LogMessageBase&& message) const {
 
 namespace logmessage::preprocessor {
 
+    std::string RecursiveMacro::formatMessage() const {
+        auto output = m_location.format();
+        auto const message = "Macro '"sv;
+        auto const message2 = "' is used (directly or indirectly) inside its own expansion."sv;
+
+        output.reserve(output.length() + message.length() + macroname.length() + message2.length());
+        output.append(message);
+        output.append(macroname);
+        output.append(message2);
+        return output;
+    }
+
     std::string ArgCountMissmatch::formatMessage() const {
         auto output = m_location.format();
         auto const message = "Arg Count Missmatch."sv;
